@@ -388,14 +388,53 @@ func (t *decTr) willBlock(body []ast.Stmt) string {
 }
 
 var loopIdioms = map[string]string{
-	"for { var f TopicFilter B.get(&f.filter) B.get(&f.options) p.filters = append(p.filters, f) if B.err != nil || B.i == len(data) { break } }": "Subscribe.filterStage data",
-	"for { var f wstring B.get(&f) p.filters = append(p.filters, f) if B.err != nil || B.i == len(data) { break } }":                                 "Unsubscribe.filterStage data",
+	"for { var L0 TopicFilter B.get(&L0.filter) B.get(&L0.options) p.filters = append(p.filters, L0) if B.err != nil || B.i == len(data) { break } }": "Subscribe.filterStage data",
+	"for { var L0 wstring B.get(&L0) p.filters = append(p.filters, L0) if B.err != nil || B.i == len(data) { break } }":                                   "Unsubscribe.filterStage data",
 }
 
-const codesIdiom = "p.reasonCodes = make([]uint8, len(data)-B.i)|for i, _ := range p.reasonCodes { var v wuint8 B.get(&v) p.reasonCodes[i] = uint8(v) }"
+const codesIdiom = "p.reasonCodes = make([]uint8, len(data)-B.i)|for L0, _ := range p.reasonCodes { var L1 wuint8 B.get(&L1) p.reasonCodes[L0] = uint8(L1) }"
 
+// the source of a node with the cursor variable written B and the local variables declared inside the node
+// renamed L0, L1, … in order of declaration (an idiom is recognised up to the names of its locals)
 func (t *decTr) norm(n ast.Node) string {
+	type def struct {
+		pos token.Pos
+		obj types.Object
+	}
+	var defs []def
+	for id, obj := range pkg.TypesInfo.Defs {
+		if obj == nil || id.Pos() < n.Pos() || id.Pos() >= n.End() {
+			continue
+		}
+		if v, ok := obj.(*types.Var); ok && !v.IsField() && id.Name != "_" {
+			defs = append(defs, def{id.Pos(), obj})
+		}
+	}
+	sort.Slice(defs, func(i, j int) bool { return defs[i].pos < defs[j].pos })
+	names := map[types.Object]string{}
+	for i, d := range defs {
+		names[d.obj] = fmt.Sprintf("L%d", i)
+	}
+	var renamed []*ast.Ident
+	var old []string
+	ast.Inspect(n, func(x ast.Node) bool {
+		if id, ok := x.(*ast.Ident); ok {
+			obj := pkg.TypesInfo.Defs[id]
+			if obj == nil {
+				obj = pkg.TypesInfo.Uses[id]
+			}
+			if nm, ok := names[obj]; ok && obj != nil {
+				renamed = append(renamed, id)
+				old = append(old, id.Name)
+				id.Name = nm
+			}
+		}
+		return true
+	})
 	s := srcOf(n)
+	for i, id := range renamed {
+		id.Name = old[i]
+	}
 	if t.bufVar != "" {
 		s = regexp.MustCompile(`\b`+regexp.QuoteMeta(t.bufVar)+`\.`).ReplaceAllString(s, "B.")
 	}
@@ -445,6 +484,9 @@ func (t *decTr) stages(stmts []ast.Stmt) []string {
 			}
 		case *ast.AssignStmt:
 			// the reason-code idiom: make + range loop
+			if os.Getenv("MQEXTRACT_DEBUG") != "" && i+1 < len(stmts) {
+				fmt.Fprintln(os.Stderr, "codes idiom candidate:", t.norm(x)+"|"+t.norm(stmts[i+1]))
+			}
 			if i+1 < len(stmts) && t.norm(x)+"|"+t.norm(stmts[i+1]) == codesIdiom {
 				out = append(out, "SubAck.codesStage")
 				i++
